@@ -127,6 +127,15 @@ CHECKS = {
         note="Partial: the evaluators' treatment of names as map keys is end-to-end only. Known limitation: all-capital class names are lexed as constants.",
         technique="Lean 4 proof (classification factors through a category tuple) + differential tok stream + end-to-end renaming",
     ),
+    "C18": dict(
+        category="proof",
+        text="Output-assembly half: on a model of main.go's round loop (one parser and Errors list per file, one global article list, hints filtered by the recording parser's file) Lean proves that for ANY behaviour of the preloaded files' evaluations every printed line names the target file, "
+             "diagnostics are exactly the target parser's errors, and preloaded definitions produce no hint. The syntactic facts about main.go the model rests on are re-extracted each run and re-checked by decide. "
+             "Equality with the concatenated program depends on the statement evaluator (a parameter of the model) and is checked end-to-end: programs split at top-level boundaries into 1-3 preload files + target vs the concatenation, rows rebased.",
+        design="DESIGN.md §4 C18",
+        note="Partial: `H_neutral` (evaluator state is neutral at a top-level statement boundary) is assumed for the concatenation equality and only exercised end-to-end.",
+        technique="Lean 4 proof over the round-loop model + regenerated main.go facts + end-to-end preload/concatenation comparison",
+    ),
 }
 
 PENDING_REASON = "check not built yet in this session (see DESIGN.md §4 for the planned Lean model and theorem); not claimed until its check exists"
